@@ -415,7 +415,11 @@ impl Simulation {
             #[cfg(feature = "verif-hooks")]
             crate::verif_hooks::probe(crate::verif_hooks::site::STEP_ACTION_PULLED, channel_id);
             if let Some((action_clone, period)) = action.next() {
-                scheduler_queue.insert((time + period, channel_id), action_clone);
+                // A next occurrence that lies beyond the representable time
+                // range cannot be scheduled: the action then simply ends.
+                if let Some(next_time) = time.checked_add(period) {
+                    scheduler_queue.insert((next_time, channel_id), action_clone);
+                }
             }
 
             action
